@@ -131,6 +131,10 @@ class Scenario:
                             if calls['n'] - 1 == fault['at'] and \
                                     not injected['done']:
                                 injected['done'] = True
+                                if fault.get('exc') == 'timeout':
+                                    # e.g. a lock that could not be had:
+                                    # answered NO [TIMEOUT], not BYE
+                                    raise TimeoutError('vf injected')
                                 raise OSError(errno.EIO, 'vf injected')
                         return await orig(self, *aa, **kw)
                     return wrapper
@@ -251,10 +255,145 @@ def judge_dict(spec: dict[str, Any], obs: dict[str, Any], hist: History,
         va = {k: sorted(c for c in v if c in set(
             x for vv in before.values() for x in vv))
             for k, v in after.items()}
+        partial_move = False
+        if kind == 'move' and vb != va:
+            gone = [c for c in vb.get('INBOX', []) if c not in
+                    va.get('INBOX', [])]
+            partial_move = bool(gone) and all(
+                va.get('Dest', []).count(c) == 1 for c in gone) and \
+                sorted(c for v in vb.values() for c in v) == \
+                sorted(c for v in va.values() for c in v)
         if vb != va and kind != 'multiappend':
-            hist.report('no-or-bad-but-contents-changed',
+            hist.report('no-or-bad-but-contents-changed' + (
+                ':part-of-the-set-moved' if partial_move else ''),
                         '%s: %s ended with %r but contents changed: before '
                         '%r after %r' % (ftxt, kind, cond, vb, va))
+
+
+async def case_lock(spec: dict[str, Any], hist: History,
+                    counters: dict[str, int]) -> None:
+    """maildir, in process: a foreign holder (another server process, a
+    delivery agent) takes ``dovecot-uidlist.lock`` of the mailbox right after
+    the k-th message file of the victim command has been written, i.e. while
+    the command is between "file stored" and "UID assigned".  The command
+    then waits for the lock, which is the one place where the maildir
+    backend really suspends in the middle of a command; there it is cancelled
+    (connection torn down) or left to run into the lock timeout (NO).  After
+    the lock is gone a fresh session opens the mailboxes."""
+    import mailbox as _mb
+    import os
+    loop = asyncio.get_event_loop()
+    env = await make_env(spec['backend'])
+    orig_add = _mb.Maildir.add
+    st: dict[str, Any] = {'n': 0, 'lock': None, 'armed': False}
+
+    def add(self: Any, message: Any) -> Any:
+        key = orig_add(self, message)
+        if st['armed']:
+            st['n'] += 1
+            if st['n'] == spec['k'] and st['lock'] is None:
+                path = os.path.join(self._path, 'dovecot-uidlist.lock')
+                try:
+                    os.close(os.open(path, os.O_CREAT | os.O_EXCL |
+                                     os.O_WRONLY))
+                    st['lock'] = path
+                except FileExistsError:
+                    pass
+        return key
+    try:
+        prov = Session(env, hist, 0, Sched(), 0)
+        hist.sessions.remove(prov)
+        await prov.start()
+        await prov.cmd(b'CREATE Dest')
+        old = []
+        for _ in range(3):
+            r0 = await prov.append(b'INBOX')
+            old.append(b'm%s-%d' % (hist.case_id.encode(), hist.ncid))
+        await prov.cmd(b'LOGOUT')
+        a = Session(env, hist, 1, Sched(), spec['seed'])
+        await a.start()
+        await a.select(b'INBOX')
+        await a.fetch_all()
+        nv = 3
+        before_cid = hist.ncid
+        _mb.Maildir.add = add           # type: ignore[method-assign]
+        st['armed'] = True
+        if spec['victim'] == 'multiappend':
+            task = asyncio.ensure_future(a.append(b'INBOX', n=nv))
+        else:
+            task = asyncio.ensure_future(a.copy(b'1:3', b'Dest'))
+        await loop.quiescent()          # type: ignore[attr-defined]
+        st['armed'] = False
+        victim_cids = [b'm%s-%d' % (hist.case_id.encode(), k)
+                       for k in range(before_cid + 1, hist.ncid + 1)]
+        if st['lock'] is None or task.done():
+            counters['lock_not_taken'] = counters.get('lock_not_taken', 0) + 1
+        else:
+            counters['lock_waits'] = counters.get('lock_waits', 0) + 1
+            if spec['end'] == 'cancel':
+                if a.conn.task is not None:
+                    a.conn.task.cancel()
+            else:
+                # the holder keeps the lock just beyond the waiter's patience
+                # and lets go then (a lock that is never released means a
+                # store nobody can use; nothing can be promised about it)
+                from pymap.concurrent import FileLock
+                patience = sum(FileLock._DEFAULT_DELAY)
+                await loop.advance(patience + 0.2)  # type: ignore
+            await loop.quiescent()      # type: ignore[attr-defined]
+        if st['lock'] and os.path.exists(st['lock']):
+            os.unlink(st['lock'])
+        await loop.advance(15.0)        # type: ignore[attr-defined]
+        await loop.quiescent()          # type: ignore[attr-defined]
+        r = await task
+        cond = r.cond
+        _mb.Maildir.add = orig_add      # type: ignore[method-assign]
+        # what a fresh session finds (opening a mailbox adopts files that
+        # have no UID yet)
+        f = Session(env, hist, 9, Sched(), 9)
+        hist.sessions.remove(f)
+        await f.start()
+        found: dict[bytes, list[bytes]] = {}
+        for box in (b'INBOX', b'Dest'):
+            await f.select(box)
+            rr = await f.cmd(b'FETCH 1:* (BODY.PEEK[HEADER.FIELDS '
+                             b'(X-VF-ID)])') if f.shadow.count else None
+            cids = []
+            for u in (rr.untagged if rr is not None else []):
+                if u.typ == b'FETCH' and isinstance(u.data, dict):
+                    for kk, vv in u.data.items():
+                        if kk.startswith(b'BODY[') and isinstance(vv, bytes):
+                            m = re.search(rb'X-VF-ID: *(\S+)', vv)
+                            if m:
+                                cids.append(m.group(1))
+            found[box] = cids
+        counters['lock_cases_judged'] = counters.get('lock_cases_judged',
+                                                     0) + 1
+        where = 'foreign lock after file %d, %s' % (spec['k'], spec['end'])
+        if spec['victim'] == 'multiappend' and cond != b'OK':
+            left = [c for c in victim_cids if c in found[b'INBOX']]
+            if left:
+                hist.report('multiappend-partially-applied:lock-' +
+                            spec['end'],
+                            '%s: APPEND of %d messages ended with %r but %r '
+                            'are in the mailbox for the next session' % (
+                                where, nv, cond, left))
+        if spec['victim'] == 'copy' and cond in (b'NO', b'BAD'):
+            if found[b'Dest'] or sorted(found[b'INBOX']) != sorted(old):
+                hist.report('no-or-bad-but-contents-changed:lock-' +
+                            spec['end'],
+                            '%s: COPY ended with %r but INBOX holds %r and '
+                            'Dest %r' % (where, cond, found[b'INBOX'],
+                                         found[b'Dest']))
+        if spec['victim'] == 'multiappend' and cond == b'OK':
+            if sorted(c for c in found[b'INBOX'] if c in victim_cids) != \
+                    sorted(victim_cids):
+                hist.report('multiappend-ok-but-incomplete',
+                            '%s: APPEND OK but %r of %r are there' % (
+                                where, found[b'INBOX'], victim_cids))
+    finally:
+        _mb.Maildir.add = orig_add      # type: ignore[method-assign]
+        env.cleanup()
 
 
 class C14(Check):
@@ -266,6 +405,10 @@ class C14(Check):
             'every step, EOF at every step, raise from every storage call; '
             'case (maildir) = a history with MOVE/MULTIAPPEND x every '
             'filesystem operation as ENOSPC failure point and as kill point; '
+            'case (lock) = maildir in process, a foreign holder takes the '
+            'uidlist lock right after the k-th message file of a multi-'
+            'message APPEND / COPY was written, the waiting command is '
+            'cancelled or runs into the lock timeout; '
             'distinct = (scenario, fault point); non-trivial = the fault was '
             'actually injected')
     assumptions = [
@@ -276,7 +419,8 @@ class C14(Check):
         'maildir failure injection = OSError raised before the operation '
         'executes; kill = process death between filesystem operations']
     floors = {'fault_points_run': 1000, 'faults_injected': 800,
-              'census_steps': 10000, 'fs_fault_points_run': 150}
+              'census_steps': 10000, 'fs_fault_points_run': 150,
+              'lock_waits': 16}
     time_cap = {'quick': 120.0, 'thorough': 1200.0}
 
     def cases(self, tier: str, seed: int) -> Iterable[dict[str, Any]]:
@@ -291,6 +435,13 @@ class C14(Check):
                    'nmsgs': rng.randint(1, 5),
                    'drain': rng.choice([0, 2, 5]),
                    'delay': rng.choice([0, 2, 6])}
+        for backend in ('maildir', 'maildir-fs'):
+            for victim in ('multiappend', 'copy'):
+                for k in (1, 2, 3):
+                    for end in ('cancel', 'timeout'):
+                        yield {'kind': 'lock', 'seed': seed * 31 + k,
+                               'backend': backend, 'victim': victim,
+                               'k': k, 'end': end}
         for h in range(ncrash):
             for j in range(6):
                 yield {'kind': 'maildir', 'hseed': seed * 1_000_003 + h,
@@ -300,6 +451,8 @@ class C14(Check):
     def run_case(self, spec: dict[str, Any]) -> dict[str, Any]:
         if spec['kind'] == 'maildir':
             return self.run_maildir(spec)
+        if spec['kind'] == 'lock':
+            return self.run_lock(spec)
         random.seed(spec['seed'])
         counters: dict[str, int] = {}
         violations: list[dict[str, Any]] = []
@@ -325,7 +478,9 @@ class C14(Check):
                         'message-in-neither-mailbox-at-some-step',
                         'moved-message-lost', 'moved-message-duplicated',
                         'multiappend-partially-applied',
-                        'no-or-bad-but-contents-changed'):
+                        'no-or-bad-but-contents-changed',
+                        'no-or-bad-but-contents-changed:'
+                        'part-of-the-set-moved'):
                     v['witness']['fault'] = fault
                     v['witness']['spec'] = spec
                     violations.append(v)
@@ -342,7 +497,10 @@ class C14(Check):
         counters['census_steps'] = ref.get('census_steps', 0)
         faults = [{'type': 'cancel', 'at': s} for s in range(S + 1)] + \
             [{'type': 'eof', 'at': s} for s in range(S + 1)] + \
-            [{'type': 'raise', 'at': c} for c in range(C)]
+            [{'type': 'raise', 'at': c} for c in range(C)] + \
+            [{'type': 'raise', 'at': c, 'exc': 'timeout'} for c in range(C)]
+        if spec.get('faults'):
+            faults = spec['faults']     # a scripted trigger
         counters['fault_points_enumerated'] = len(faults)
         for f in faults:
             obs = one(f)
@@ -367,6 +525,26 @@ class C14(Check):
                 'sample': {'spec': spec, 'steps': S, 'storage_calls': C,
                            'fault_points': len(faults)},
                 'aborted': None}
+
+    def run_lock(self, spec: dict[str, Any]) -> dict[str, Any]:
+        hist = History(str(spec['seed']))
+        counters: dict[str, int] = {}
+
+        async def main(loop: L.CtlLoop) -> None:
+            await case_lock(spec, hist, counters)
+
+        aborted = None
+        try:
+            L.run(main, max_steps=400_000)
+        except L.Deadlock:
+            aborted = 'deadlock'
+        hist.attach_transcripts()
+        for v in hist.violations:
+            v.setdefault('witness', {})['spec'] = spec
+        return {'violations': hist.violations, 'counters': counters,
+                'sig': 'lock:' + repr(sorted(spec.items())),
+                'nontrivial': counters.get('lock_waits', 0) > 0,
+                'sample': {'spec': spec}, 'aborted': aborted}
 
     def run_maildir(self, spec: dict[str, Any]) -> dict[str, Any]:
         rng = random.Random(spec['hseed'])
